@@ -63,9 +63,15 @@ def main():
         for sid, prop, res in ex.map(lambda s: run_one(s, all_checks, checks), ids):
             results[sid] = {"property": prop, "checks": res}
     path = f"{VERIF}/seeded/RESULTS.json"
-    old = json.load(open(path)) if os.path.exists(path) else {}
-    old.update(results)
-    json.dump(old, open(path, "w"), indent=1, sort_keys=True)
+    import fcntl
+
+    with open(path + ".lock", "w") as lk:  # several runs may finish at the same time
+        fcntl.flock(lk, fcntl.LOCK_EX)
+        old = json.load(open(path)) if os.path.exists(path) else {}
+        old.update(results)
+        with open(path + ".tmp", "w") as fh:
+            json.dump(old, fh, indent=1, sort_keys=True)
+        os.replace(path + ".tmp", path)
     for sid in ids:
         r = results[sid]
         if "error" in r["checks"]:
